@@ -119,12 +119,13 @@ def lean_list(items):
 class Lock:
     """flock around everything that touches lean/.lake or Generated/."""
 
-    def __init__(self):
+    def __init__(self, shared=False):
         self.f = None
+        self.shared = shared      # driver runs only read .lake: several may run at once; gen/build/audit are exclusive
 
     def __enter__(self):
-        self.f = open(os.path.join(LEAN_DIR, ".verif.lock"), "w")
-        fcntl.flock(self.f, fcntl.LOCK_EX)
+        self.f = open(os.path.join(LEAN_DIR, ".verif.lock"), "a")
+        fcntl.flock(self.f, fcntl.LOCK_SH if self.shared else fcntl.LOCK_EX)
         return self
 
     def __exit__(self, *a):
@@ -258,7 +259,7 @@ class LeanDriver:
 
     def run(self, lines, timeout=900):
         inp = "".join(l + "\n" for l in lines)
-        with Lock():
+        with Lock(shared=True):
             rc, out, err, dt = run_cmd(["lake", "env", "lean", "--run", self.path], cwd=LEAN_DIR, inp=inp, timeout=timeout)
         if rc != 0:
             raise Infra("lean driver %s failed rc=%s: %s" % (self.path, rc, (out[-500:] + err[-1500:])))
